@@ -22,3 +22,6 @@ func (h *FBDNSDB) VerifSetDB(d *db.DB) { h.dnsdb = d }
 
 // VerifDBPath reports the path partial reloads act on (simulation testing only).
 func (h *FBDNSDB) VerifDBPath() string { return h.dbConfig.Path }
+
+// VerifDB returns the served database (simulation testing only).
+func (h *FBDNSDB) VerifDB() *db.DB { return h.dnsdb }
